@@ -45,7 +45,8 @@ pub fn insert<const N: usize, const N2: usize>(items: usize, deleted: usize) {
     let raw = hv::raw_of_table_ref(&t);
     assert!(buckets_of(raw) == N2);
     let post = snap::<T, _, N2>(raw);
-    assert!(inv::<N2>(&post, InvKind::Full, &h, false, false));
+    // (no growth in the instances of this harness: the free-slot accounting stays exact)
+    assert!(inv::<N2>(&post, InvKind::Full, &h, false, N2 == N));
     // multiset: exactly one more (k, aux), everything else unchanged
     let q = any_id();
     let qa: u8 = any();
